@@ -120,6 +120,7 @@ pub fn draw_cfg(profile: &str, thorough: bool, rng: &mut Rng) -> RunCfg {
         misroute_pct: 0,
         echo_suppress: rng.chance(30),
         undo_walk: 0,
+        sticky_undo: false,
     };
     match profile {
         "gap" => {
@@ -198,6 +199,9 @@ pub fn draw_cfg(profile: &str, thorough: bool, rng: &mut Rng) -> RunCfg {
                     (&mut cfg.w_partition, 1, 5),
                 ],
             );
+            if profile == "sticky" {
+                cfg.sticky_undo = rng.chance(40);
+            }
         }
         "lww" => {
             // a few hot keys on 1-3 maps (root, nested, XML attributes); partitions make concurrency
